@@ -698,3 +698,68 @@ routine_harness!(c14c01c02_lex_string_q, Class::Str, 6, 8);
 routine_harness!(c14c01c02_lex_var_name_q, Class::VarName, 6, 8);
 routine_harness!(c14c01c02_lex_code_q, Class::Code, 7, 9);
 routine_harness!(c14c01c02_lex_hash_q, Class::Hash, 8, 10);
+
+// ---------------------------------------------------------------------------
+// long words over a restricted alphabet: every keyword / bang operator name fits
+
+fn word_text<const N: usize>(bytes: &[u8; N], len: usize, first: u8) -> &str {
+    kani::assume(len <= N && len >= 1);
+    kani::assume(bytes[0] == first);
+    let mut i = 1;
+    while i < N {
+        let b = bytes[i];
+        kani::assume((b >= b'a' && b <= b'z') || (b >= b'0' && b <= b'9') || b == b'_' || b == b' ');
+        i += 1;
+    }
+    unsafe { std::str::from_utf8_unchecked(&bytes[..len]) }
+}
+
+fn bang_step<const N: usize>() {
+    let bytes: [u8; N] = kani::any();
+    let len: usize = kani::any();
+    let text = word_text(&bytes, len, b'!');
+    let mut l = Lexer::new(text);
+    l.s.jump(1);
+    let kind = l.bangoperator();
+    judge(text, &mut l, kind);
+    kani::cover!(kind == K::XListFlatten, "W: !listflatten recognised");
+    kani::cover!(kind == K::XCond, "W: !cond recognised");
+}
+
+fn keyword_step<const N: usize>() {
+    let bytes: [u8; N] = kani::any();
+    let len: usize = kani::any();
+    kani::assume(bytes[0] >= b'a' && bytes[0] <= b'z');
+    let text = word_text(&bytes, len, bytes[0]);
+    let mut l = Lexer::new(text);
+    l.s.jump(1);
+    let kind = l.identifier(0);
+    judge(text, &mut l, kind);
+    kani::cover!(kind == K::MultiClass, "W: multiclass recognised");
+    kani::cover!(kind == K::Id && len == N, "W: long identifier");
+}
+
+#[kani::proof]
+#[kani::unwind(15)]
+#[kani::stub(crate::lexer::Lexer::error, crate::lexer::Lexer::verif_error_stub)]
+fn c14c20_lex_bang_words_q() {
+    bang_step::<13>();
+}
+
+#[kani::proof]
+#[kani::unwind(13)]
+#[kani::stub(crate::lexer::Lexer::error, crate::lexer::Lexer::verif_error_stub)]
+fn c14c20_lex_keyword_words_q() {
+    keyword_step::<11>();
+}
+
+// thorough tier: 8 bytes (block comments / # : 10)
+routine_harness!(c14c01c02_lex_whitespace_t, Class::Ws, 8, 10);
+routine_harness!(c14c01c02_lex_line_comment_t, Class::LineComment, 8, 10);
+routine_harness!(c14c01c02_lex_block_comment_t, Class::BlockComment, 10, 12);
+routine_harness!(c14c01c02_lex_number_t, Class::Number, 7, 9);
+routine_harness!(c14c01c02_lex_identifier_t, Class::Ident, 8, 12);
+routine_harness!(c14c01c02_lex_string_t, Class::Str, 8, 10);
+routine_harness!(c14c01c02_lex_var_name_t, Class::VarName, 8, 10);
+routine_harness!(c14c01c02_lex_code_t, Class::Code, 9, 11);
+routine_harness!(c14c01c02_lex_hash_t, Class::Hash, 10, 12);
